@@ -441,14 +441,14 @@ static void arm(int on)
 /* ------------------------------------------------------- introspection */
 static void occ(void)
 {
-    CO_TMR *tm = &Node->Tmr; int c[8] = {0}; int total = 0;
+    CO_TMR *tm = &Node->Tmr; int c[8] = {0}; int total = 0; int elapsed = 0;
     CO_TMR_TIME *lists[2] = { tm->Use, tm->Elapsed };
     for (int l = 0; l < 2; l++) {
         int guard = 0;
         for (CO_TMR_TIME *t = lists[l]; t && guard < (int)tm->Max + 1; t = t->Next, guard++) {
             int g2 = 0;
             for (CO_TMR_ACTION *a = t->Action; a && g2 < (int)tm->Max + 1; a = a->Next, g2++) {
-                uint8_t *p = (uint8_t *)a->Para; int k = 7; total++;
+                uint8_t *p = (uint8_t *)a->Para; int k = 7; total++; elapsed += l;
                 if (p == (uint8_t *)&Node->Nmt) k = 0;
                 else if (p >= (uint8_t *)Node->TPdo && p < (uint8_t *)(Node->TPdo + CO_TPDO_N)) k = 1;
                 else if (p == (uint8_t *)&Node->Sync) k = 2;
@@ -460,8 +460,8 @@ static void occ(void)
             }
         }
     }
-    printf("occ total=%d hbprod=%d tpdo=%d sync=%d csdo=%d lss=%d hbc=%d app=%d other=%d\n",
-           total, c[0], c[1], c[2], c[3], c[4], c[5], c[6], c[7]);
+    printf("occ total=%d hbprod=%d tpdo=%d sync=%d csdo=%d lss=%d hbc=%d app=%d other=%d elapsed=%d use=%d\n",
+           total, c[0], c[1], c[2], c[3], c[4], c[5], c[6], c[7], elapsed, total - elapsed);
 }
 static void state(void)
 {
@@ -590,7 +590,7 @@ int main(void)
         } else if (!strcmp(c, "proc")) { CONodeProcess(Node);
         } else if (!strcmp(c, "tick")) {  /* tick n : service+process per tick */
             uint32_t n = argc > 1 ? U(1) : 1;
-            while (n--) { Tick++; if (COTmrService(&Node->Tmr) > 0) COTmrProcess(&Node->Tmr); }
+            while (n--) { Tick++; (void)COTmrService(&Node->Tmr); COTmrProcess(&Node->Tmr); }
         } else if (!strcmp(c, "svc")) {   /* service only */
             uint32_t n = argc > 1 ? U(1) : 1;
             while (n--) { Tick++; (void)COTmrService(&Node->Tmr); }
